@@ -149,12 +149,21 @@ func URLVerdict(s string) (pass, certain bool) {
 	if !strings.Contains(s, ":") {
 		return false, true // no scheme possible
 	}
-	// scheme "://" host [":" port] ["/" path] ["?" query]
+	// scheme "://" host [":" port] ["/" path] ["?" query] ["#" fragment]   (RFC 3986: the fragment may follow any of them)
 	i := strings.Index(s, "://")
 	if i <= 0 {
 		return false, false
 	}
 	scheme, rest := s[:i], s[i+3:]
+	if k := strings.IndexByte(rest, '#'); k >= 0 {
+		frag := rest[k+1:]
+		rest = rest[:k]
+		for j := 0; j < len(frag); j++ {
+			if c := frag[j]; !isAlnum(c) && strings.IndexByte("/?=&_.~-", c) < 0 {
+				return false, false
+			}
+		}
+	}
 	if !(scheme[0] >= 'a' && scheme[0] <= 'z') {
 		return false, false
 	}
